@@ -25,6 +25,7 @@ type proc struct {
 	marker  int
 	timeout int // ms
 	dead    bool
+	owner   *Solver
 }
 
 func startProc(name, kind string, timeoutMs int, args ...string) *proc {
@@ -34,6 +35,10 @@ func startProc(name, kind string, timeoutMs int, args ...string) *proc {
 }
 
 func (p *proc) start() {
+	if p.owner != nil && p.owner.abandoned {
+		p.dead = true
+		return
+	}
 	c := exec.Command(p.args[0], p.args[1:]...)
 	in, _ := c.StdinPipe()
 	out, _ := c.StdoutPipe()
@@ -119,6 +124,7 @@ type Solver struct {
 	stack   [][]string
 	St      SolverStats
 	Verbose bool
+	abandoned bool
 	cur     *proc // process holding the state of the last Query
 	curInc  bool
 	logf    *os.File
@@ -136,10 +142,23 @@ func NewSolver(cfg SolverCfg) *Solver {
 		startProc("z3-new-fresh", "z3", cfg.FreshTimeoutMs, "z3-new", "-in"),
 		startProc("cvc5-fresh", "cvc5", cfg.FreshTimeoutMs, "cvc5", "--incremental", "--strings-exp", "--produce-models", "--tlimit-per="+strconv.Itoa(cfg.FreshTimeoutMs), "--lang=smt2"),
 	}
+	s.inc.owner = s
+	for _, p := range s.fresh {
+		p.owner = s
+	}
 	if f := os.Getenv("SYMGO_SMTLOG"); f != "" {
 		s.logf, _ = os.Create(f)
 	}
 	return s
+}
+
+// Abandon kills every process and prevents restarts (hard time-out of a harness)
+func (s *Solver) Abandon() {
+	s.abandoned = true
+	s.inc.kill()
+	for _, p := range s.fresh {
+		p.kill()
+	}
 }
 
 func (s *Solver) Close() {
@@ -187,6 +206,9 @@ func (s *Solver) Assert(t *Term) {
 // restart the incremental process and replay the whole stack into it
 func (s *Solver) reviveInc() {
 	s.inc.kill()
+	if s.abandoned {
+		return
+	}
 	s.inc.start()
 	for i, fr := range s.stack {
 		if i > 0 {
